@@ -48,7 +48,14 @@ static std::string arg_text(const SutAction& a, int which) {
 	if (a.kind != A_PLAN_WALK && (a.mask[31] & (which ? 2 : 1))) return "self";
 	return std::to_string(int(which ? a.b : a.a));
 }
+static std::string action_text_(const SutAction& a);
 static std::string action_text(const SutAction& a) {
+	std::string s = action_text_(a);
+	// ",t": the typed (template) form of the call, e.g. control.changeTo<T>() instead of control.changeTo(id)
+	if (a.kind != A_PLAN_WALK && a.mask[30] && !s.empty() && s[s.size() - 1] == ')') s.insert(s.size() - 1, ",t");
+	return s;
+}
+static std::string action_text_(const SutAction& a) {
 	std::ostringstream o; o << ACTION_NAMES[a.kind];
 	switch (a.kind) {
 	case A_CHANGE_TO: case A_SUCCEED: case A_FAIL: o << "(" << arg_text(a, 0) << ")"; break;
@@ -100,6 +107,7 @@ static bool parse_action(const std::string& tok, SutAction& a) {
 	for (size_t i = 0; i < parts.size(); ++i) {
 		if (parts[i].compare(0, 2, "p=") == 0) { a.has_payload = 1; if (!unhex(parts[i].substr(2), a.payload, SUT_MAX_PAYLOAD)) return false; }
 		else if (parts[i].compare(0, 2, "m=") == 0) { if (!unhex(parts[i].substr(2), a.mask, 32)) return false; }
+		else if (parts[i] == "t") { a.mask[30] = 1; }
 		else if (parts[i] == "self") { a.mask[31] = static_cast<uint8_t>(a.mask[31] | (pi == 0 ? 1 : 2)); ++pi; }
 		else { int v = atoi(parts[i].c_str()); if (pi == 0) a.a = static_cast<uint8_t>(v); else a.b = static_cast<uint8_t>(v); ++pi; }
 	}
@@ -219,18 +227,19 @@ struct Gen {
 				int k = static_cast<int>(rng.below(10));
 				if (k < 4 && !is_root) { a.kind = A_SUCCEED_SELF; return a; }
 				if (k < 6 && !is_root) { a.kind = A_FAIL_SELF; return a; }
-				if (k < 8) { a.kind = A_SUCCEED; a.a = static_cast<uint8_t>(state()); maybe_self(a, 0, 30); return a; }
-				a.kind = A_FAIL; a.a = static_cast<uint8_t>(state()); maybe_self(a, 0, 30); return a;
+				if (k < 8) { a.kind = A_SUCCEED; a.a = static_cast<uint8_t>(state()); maybe_self(a, 0, 30); maybe_typed(a); return a; }
+				a.kind = A_FAIL; a.a = static_cast<uint8_t>(state()); maybe_self(a, 0, 30); maybe_typed(a); return a;
 			}
 			if (plans) return plan_action();
 			if (!in_guard) return change_action();
 		}
 		return change_action();
 	}
+	void maybe_typed(SutAction& a) { if (rng.chance(15, 100)) a.mask[30] = 1; }
 	void maybe_self(SutAction& a, int which, int pct) { if (rng.chance(static_cast<uint32_t>(pct), 100)) a.mask[31] = static_cast<uint8_t>(a.mask[31] | (which ? 2 : 1)); }
 	SutAction change_action() {
 		SutAction a; memset(&a, 0, sizeof(a));
-		a.a = static_cast<uint8_t>(state()); maybe_self(a, 0, 8);
+		a.a = static_cast<uint8_t>(state()); maybe_self(a, 0, 8); maybe_typed(a);
 		if (payload && rng.chance(1, 2)) { a.kind = A_CHANGE_WITH; a.has_payload = 1; make_payload(a.payload); }
 		else a.kind = A_CHANGE_TO;
 		return a;
@@ -240,7 +249,7 @@ struct Gen {
 		int r = static_cast<int>(rng.below(100));
 		if (r < 60) {
 			a.a = static_cast<uint8_t>(state()); a.b = static_cast<uint8_t>(rng.chance(1, 6) ? a.a : state());
-			maybe_self(a, 0, 45); maybe_self(a, 1, 8);
+			maybe_self(a, 0, 45); maybe_self(a, 1, 8); maybe_typed(a);
 			if (payload && rng.chance(1, 2)) { a.kind = A_PLAN_APPEND_WITH; a.has_payload = 1; make_payload(a.payload); }
 			else a.kind = A_PLAN_APPEND;
 		} else if (r < 78) { a.kind = A_PLAN_REMOVE_NTH; a.a = static_cast<uint8_t>(rng.below(4)); }
@@ -307,7 +316,7 @@ struct Gen {
 			const int r = static_cast<int>(rng.below(100));
 			if (re.who == W_ROOT) { a.kind = r < 70 ? A_SUCCEED : A_FAIL; a.a = static_cast<uint8_t>(state()); if (rng.chance(2, 3)) a.mask[31] = 1; }
 			else a.kind = r < 65 ? A_SUCCEED_SELF : r < 85 ? A_FAIL_SELF : r < 93 ? A_SUCCEED : A_FAIL;
-			if (a.kind == A_SUCCEED || a.kind == A_FAIL) { if (!a.mask[31]) a.a = static_cast<uint8_t>(state()); }
+			if (a.kind == A_SUCCEED || a.kind == A_FAIL) { if (!a.mask[31]) a.a = static_cast<uint8_t>(state()); maybe_typed(a); }
 			re.acts.push_back(a);
 			if (rng.chance(1, 5)) re.acts.push_back(plan_action());
 			op.reactions.push_back(re);
@@ -316,16 +325,16 @@ struct Gen {
 		case OP_UPDATE: add_reactions(op, upd, plans ? 12 : 10, false); break;
 		case OP_REACT: op.a = static_cast<int>(rng.below(3)); op.b = static_cast<int>(rng.next() & 0x7fffffff); add_reactions(op, rea, plans ? 12 : 10, false); break;
 		case OP_QUERY: op.a = static_cast<int>(rng.below(3)); op.b = static_cast<int>(rng.next() & 0x7fffffff); add_reactions(op, qry, 1, false); break;
-		case OP_CHANGE_TO: op.a = state(); op.c = rng.chance(1, 12) ? 1 : 0; break;
-		case OP_CHANGE_WITH: op.a = state(); op.c = rng.chance(1, 12) ? 1 : 0; op.has_payload = 1; make_payload(op.payload); break;
-		case OP_IMM_CHANGE_TO: op.a = state(); op.c = rng.chance(1, 12) ? 1 : 0; add_reactions(op, imm, 6, false); break;
-		case OP_IMM_CHANGE_WITH: op.a = state(); op.c = rng.chance(1, 12) ? 1 : 0; op.has_payload = 1; make_payload(op.payload); add_reactions(op, imm, 6, false); break;
-		case OP_PLAN_APPEND: op.a = state(); op.b = rng.chance(1, 6) ? op.a : state(); op.c = (rng.chance(45, 100) ? 1 : 0) | (rng.chance(1, 12) ? 2 : 0); break;
-		case OP_PLAN_APPEND_WITH: op.a = state(); op.b = rng.chance(1, 6) ? op.a : state(); op.c = (rng.chance(45, 100) ? 1 : 0) | (rng.chance(1, 12) ? 2 : 0); op.has_payload = 1; make_payload(op.payload); break;
+		case OP_CHANGE_TO: op.a = state(); op.c = (rng.chance(1, 12) ? 1 : 0) | (rng.chance(15, 100) ? 4 : 0); break;
+		case OP_CHANGE_WITH: op.a = state(); op.c = (rng.chance(1, 12) ? 1 : 0) | (rng.chance(15, 100) ? 4 : 0); op.has_payload = 1; make_payload(op.payload); break;
+		case OP_IMM_CHANGE_TO: op.a = state(); op.c = (rng.chance(1, 12) ? 1 : 0) | (rng.chance(15, 100) ? 4 : 0); add_reactions(op, imm, 6, false); break;
+		case OP_IMM_CHANGE_WITH: op.a = state(); op.c = (rng.chance(1, 12) ? 1 : 0) | (rng.chance(15, 100) ? 4 : 0); op.has_payload = 1; make_payload(op.payload); add_reactions(op, imm, 6, false); break;
+		case OP_PLAN_APPEND: op.a = state(); op.b = rng.chance(1, 6) ? op.a : state(); op.c = (rng.chance(45, 100) ? 1 : 0) | (rng.chance(1, 12) ? 2 : 0) | (rng.chance(15, 100) ? 4 : 0); break;
+		case OP_PLAN_APPEND_WITH: op.a = state(); op.b = rng.chance(1, 6) ? op.a : state(); op.c = (rng.chance(45, 100) ? 1 : 0) | (rng.chance(1, 12) ? 2 : 0) | (rng.chance(15, 100) ? 4 : 0); op.has_payload = 1; make_payload(op.payload); break;
 		case OP_PLAN_REMOVE_NTH: op.a = static_cast<int>(rng.below(5)); break;
 		case OP_PLAN_WALK: for (int i = 0; i < 4; ++i) op.mask[i] = static_cast<uint8_t>(rng.next() & rng.next()); break;
 		case OP_PLAN_FILL: op.a = state(); op.b = state(); op.c = rng.chance(1, 3) ? 1 : 0; break;
-		case OP_SUCCEED: case OP_FAIL: op.a = state(); op.c = rng.chance(1, 2) ? 1 : 0; break;
+		case OP_SUCCEED: case OP_FAIL: op.a = state(); op.c = (rng.chance(1, 2) ? 1 : 0) | (rng.chance(15, 100) ? 4 : 0); break;
 		case OP_LOAD: op.a = static_cast<int>(rng.below(8)); add_reactions(op, lif, 3, false); break;
 		case OP_CRASH_RESTART: op.a = static_cast<int>(rng.below(8)); add_reactions(op, act, 3, true); break;
 		case OP_CLEAN_RESTART: add_reactions(op, act, 3, true); break;
